@@ -192,6 +192,7 @@ def _observe_entry(idx):
     w = world("recursive", toy=en.toy)
     special = en.name in ("fri_loops", "coset_loop")
     t0 = time.time()
+    shape_cost = []
     for shape in shapes:
         if time.time() - t0 > 200:
             errors.append("observation time budget exhausted at entry %s" % en.name)
@@ -202,8 +203,10 @@ def _observe_entry(idx):
             h = H(ex)
             inputs, thunk = en.build(h, shape)
             return thunk()
+        t_shape = time.time()
         try:
             outs = ex.explore(entry, max_paths=en.max_paths if special else min(en.max_paths, 120), budget_s=en.budget_s if special else 30)
+            shape_cost.append((time.time() - t_shape, len(shape_cost), shape))
         except (Unsupported, LoopBound) as u:
             errors.append("%s %s: %s" % (en.name, shape, str(u)[:120]))
             continue
@@ -211,10 +214,38 @@ def _observe_entry(idx):
             if o.kind == "unbounded":
                 unbounded[(sxh.rel_site(o), o.site[1])] = (o.msg, en.name)
     out = {}
-    for (f, line), o in sx.SITE_OBS.items():
+    first_obs = sx.SITE_OBS
+    focus_bound = {}
+    for (f, line), o in list(first_obs.items()):
+        if o["symbolic"] and not o["terms"] and o["kind"] in ("while", "loop"):
+            # data-dependent while / loop: follow only the paths that stay inside this loop (a path ends when the loop exits) with a high
+            # iteration limit; no path cut at the limit => the largest observed count is a bound under the harness preconditions
+            sx.SITE_OBS = {}
+            cut = False
+            for _, _, shape in sorted(shape_cost)[:1]:       # the cheapest shape (concrete configurations re-execute fastest)
+                ex = Exec(w, types=en.types(w) if en.types else {}, abstract=en.abstract(w) if en.abstract else None, int_bound=min(en.int_bound, 4), max_loop=80)
+                ex.focus_loop = (f, line)
+                def entry2(ex, shape=shape):
+                    h = H(ex)
+                    inputs, thunk = en.build(h, shape)
+                    return thunk()
+                try:
+                    outs2 = ex.explore(entry2, max_paths=400, budget_s=400)
+                except (Unsupported, LoopBound):
+                    cut = True
+                    continue
+                if any(o2.kind == "unbounded" and o2.site[1] == line for o2 in outs2):
+                    cut = True
+            o2 = sx.SITE_OBS.get((f, line))
+            if not cut and o2 is not None:
+                focus_bound[(f, line)] = max(o2["counts"])
+                rel0 = common.rel(f) if str(f).startswith(REPO) else str(f)
+                unbounded.pop((rel0, line), None)
+    for (f, line), o in first_obs.items():
         rel = common.rel(f) if str(f).startswith(REPO) else str(f)
-        B = decide_bound(o) if o["terms"] else None
-        out[(rel, line)] = {"kind": o["kind"], "counts": sorted(o["counts"]), "symbolic": o["symbolic"], "has_terms": bool(o["terms"]), "B": B, "entry": en.name}
+        B = decide_bound(o) if o["terms"] else focus_bound.get((f, line))
+        out[(rel, line)] = {"kind": o["kind"], "counts": sorted(o["counts"]), "symbolic": o["symbolic"], "has_terms": bool(o["terms"]) or (f, line) in focus_bound,
+                            "B": B, "entry": en.name}
     sx.SITE_OBS = None
     return out, unbounded, errors
 
